@@ -13,8 +13,13 @@ import GmqttVerif.Proofs.Fed.LocalSubs
   `peer.initStream` / `stream.sendEvents` / `stream.readLoop` drive it; R's side is `sessionMgr.add`, `lruCache`,
   `eventStreamHandler` and the receive loop of `EventStream` (`Model/Fed/PeerSession.lean`, stream `fedsession`);
   the channel is two FIFO buffers.  A *schedule* is any list of environment steps
-  `emit | setRetained | fetchSend | deliver ok | deliverAck | brk | reconnect opens | helloLost | peerRestart | senderRestart`
-  — unbounded events, unbounded breaks, any interleaving.  The end-to-end run of the real loops is stream `fedsim`.
+  `emit | setRetained | fetchSend | deliver ok | deliverAck | brk | reconnect opens | helloLost | helloFail | peerRestart | senderRestart`
+  — unbounded events, unbounded breaks (also during the handshake: `helloLost` = R processed the Hello, the answer is lost;
+  `helloFail` = the Hello never arrived; `reconnect false` = the stream cannot be opened after the handshake), any interleaving.
+  The end-to-end run of the real loops is stream `fedsim`, whose oracle executes this very transition system.
+
+  The theorems are about the protocol AS IT IS SINCE 086aedd (`fixed = true`: `peer.synced`, `peer.ackFloor`).  For the code
+  before that commit (`fixed = false`) the same statements are false: `…_as_is_refuted` (findings/c16-lost-hello.md).
 
   Vocabulary
   * `hist`      ghost: bodies S put into the queue since its last `clear()` — "what S emitted in this epoch", in emission
@@ -22,60 +27,56 @@ import GmqttVerif.Proofs.Fed.LocalSubs
                 Message per retained message).
   * `applied`   ghost: bodies R applied since R's session was created.
   * `Aligned`   R's session carries S's current session id ("within one peer session").
+  * `InSession` Aligned and R's `nextEventID` is not behind what S has seen acknowledged — i.e. R still holds the session S's
+                queue belongs to.  (Aligned without InSession occurs only between a Hello that re-created R's session without S
+                seeing the answer and S's next successful Hello, which then starts clean.)
   * `Quiescent` stream open, no event in flight, nothing left to send.
-  * `SafeReachable` reachable by a schedule without `helloLost`; `Reachable` by any schedule.
+  * `Reachable fixed cap st`  reachable from an initial state by ANY schedule.
   * `cap`       capacity of R's LRU of seen ids (100 in the code); the theorems hold for every capacity.
-
-  FINDING (`findings/c16-lost-hello.md`): with `helloLost` — R processes a Hello that creates a new session but the
-  response does not reach S — the full-strength statements are FALSE for the code as it is.  They are kept as
-  `…Statement` definitions, refuted by a concrete schedule, and proved as `…_partial` for schedules without that step.
 -/
 namespace GmqttVerif.Fed
 open Proto
 
 variable {τ μ : Type} [DecidableEq τ]
 
-/-- reachable from some initial local state by a schedule in which no handshake response is lost -/
-def SafeReachable (cap : Nat) (st : St τ μ) : Prop :=
-  ∃ (ts : List τ) (ms : List μ) (ls : List (Label τ μ)), (∀ l ∈ ls, l.isHelloLost = false) ∧ run cap ls (init ts ms) = some st
+/-- reachable by any schedule from some initial local state -/
+def Reachable (fixed : Bool) (cap : Nat) (st : St τ μ) : Prop :=
+  ∃ (ts : List τ) (ms : List μ) (ls : List (Label τ μ)), run fixed cap ls (init ts ms) = some st
 
-/-- reachable by any schedule -/
-def Reachable (cap : Nat) (st : St τ μ) : Prop :=
-  ∃ (ts : List τ) (ms : List μ) (ls : List (Label τ μ)), run cap ls (init ts ms) = some st
-
-theorem SafeReachable.inv {cap : Nat} {st : St τ μ} (h : SafeReachable cap st) : Inv st := by
-  obtain ⟨ts, ms, ls, hl, hr⟩ := h
-  exact run_inv ls hl (inv_init ts ms) hr
+theorem Reachable.inv {cap : Nat} {st : St τ μ} (h : Reachable true cap st) : Inv st := by
+  obtain ⟨ts, ms, ls, hr⟩ := h
+  exact run_inv ls (inv_init ts ms) hr
 
 /-! ## 1. applied log = duplicate-free, gap-free, in-order prefix of what was emitted -/
 
-/-- FULL-STRENGTH statement: in every reachable state, within one peer session, R's applied log is `take k` of what S
-    emitted.  FALSE for the code as it is (see `applied_is_prefix_exactly_once_refuted`). -/
-def AppliedIsPrefixStatement (τ μ : Type) [DecidableEq τ] : Prop :=
-  ∀ (cap : Nat) (st : St τ μ), Reachable cap st → Aligned st → ∃ k, st.r.applied = st.s.hist.take k
+/-- the statement, for either variant of the code -/
+def AppliedIsPrefixStatement (fixed : Bool) (τ μ : Type) [DecidableEq τ] : Prop :=
+  ∀ (cap : Nat) (st : St τ μ), Reachable fixed cap st → Aligned st → ∃ k, st.r.applied = st.s.hist.take k
 
-/-- In EVERY state reachable without a lost handshake response — any interleaving of emissions, fetches, deliveries,
-    acks, breaks (also between an application and its ack), failed stream opens, peer restarts and sender restarts, any
-    number of them — within one peer session the receiver's applied log equals `take k emitted` for some `k`:
-    emission order, no duplicate, no gap. -/
-theorem applied_is_prefix_exactly_once_partial (cap : Nat) (st : St τ μ) (h : SafeReachable cap st) (hal : Aligned st) :
-    ∃ k, st.r.applied = st.s.hist.take k := by
+/-- In EVERY reachable state of the protocol transition system — any interleaving of emissions, fetches, deliveries, acks,
+    breaks (between an application and its ack, during the handshake with the answer lost or the request lost, between handshake
+    and stream), peer restarts and sender restarts, any number of them — within one peer session the receiver's applied log
+    equals `take k emitted` for some `k`: emission order, no duplicate, no gap. -/
+theorem applied_is_prefix_exactly_once : AppliedIsPrefixStatement true τ μ := by
+  intro cap st h hal
   obtain ⟨ss, hss, hid⟩ := hal
-  have a := h.inv.al ss hss hid
-  exact ⟨st.r.applied.length, (List.prefix_iff_eq_take.mp a.pref)⟩
+  have hal := h.inv.al ss hss hid
+  by_cases hf : st.s.ackFloor ≤ ss.next
+  · exact ⟨st.r.applied.length, List.prefix_iff_eq_take.mp (hal.1 hf).pref⟩
+  · exact ⟨0, by rw [(hal.2 (by omega)).app0]; rfl⟩
 
-/-- The refutation: Subscribe 1 is sent, applied and acknowledged; R restarts; R processes S's Hello (new session,
-    clean_start) but the response is lost; S retries with the same session id and is told clean_start=false,
-    next_event_id=0; `setReadPosition(0)` finds nothing; Subscribe 2 (event id 1) becomes the first and only event of R's
-    new session.  applied = [Subscribe 2] is not a prefix of emitted = [Subscribe 1, Subscribe 2]. -/
-theorem applied_is_prefix_exactly_once_refuted : ¬ AppliedIsPrefixStatement Nat Nat := by
+/-- The code before 086aedd: Subscribe 1 is sent, applied and acknowledged; R restarts; R processes S's Hello (new session,
+    clean_start) but the answer is lost; S retries with the same session id and is told clean_start=false, next_event_id=0;
+    `setReadPosition(0)` finds nothing; Subscribe 2 (event id 1) becomes the first and only event of R's new session.
+    applied = [Subscribe 2] is not a prefix of emitted = [Subscribe 1, Subscribe 2]. -/
+theorem applied_is_prefix_exactly_once_as_is_refuted : ¬ AppliedIsPrefixStatement false Nat Nat := by
   intro h
-  have hrun := lostHello_run
-  cases hr : run 100 lostHelloSchedule (init ([] : List Nat) ([] : List Nat)) with
+  have hrun := lostHello_run_as_is
+  cases hr : run false 100 lostHelloSchedule (init ([] : List Nat) ([] : List Nat)) with
   | none => rw [hr] at hrun; simp at hrun
   | some st =>
     rw [hr] at hrun
-    simp only [Option.map_some, Option.some.injEq, Prod.mk.injEq] at hrun
+    simp only [Option.map_some, Option.some.injEq, summary, Prod.mk.injEq] at hrun
     obtain ⟨h1, h2, _, _, h5, h6, _⟩ := hrun
     have hal : Aligned st := by
       cases hs : st.r.sess with
@@ -88,92 +89,108 @@ theorem applied_is_prefix_exactly_once_refuted : ¬ AppliedIsPrefixStatement Nat
     | 1 => simp at hk
     | k + 2 => simp at hk
 
-/-- Outside a peer session nothing is applied: while R's session does not belong to S's current epoch (R restarted, S
-    restarted, first contact) the stream is down and both buffers are empty; the next Hello is answered with
-    clean_start = true, next_event_id = 0. -/
-theorem unaligned_is_silent (cap : Nat) (st : St τ μ) (h : SafeReachable cap st) (hna : ¬ Aligned st) :
+/-- Outside a peer session nothing is applied: while R's session does not carry S's id (R restarted, S restarted, first contact)
+    the stream is down and both buffers are empty; the next Hello is answered with clean_start = true, next_event_id = 0. -/
+theorem unaligned_is_silent (cap : Nat) (st : St τ μ) (h : Reachable true cap st) (hna : ¬ Aligned st) :
     st.c.isOpen = false ∧ st.c.up = [] ∧ st.c.down = [] ∧ (helloR cap st.r st.s.sid).2.1 = true := by
   have hi := h.inv
   have hc : st.c.isOpen = false := by
     cases ho : st.c.isOpen with
     | false => rfl
-    | true => exact absurd (hi.openal ho).1 hna
+    | true =>
+      obtain ⟨_, ss, h1, h2, _⟩ := hi.openal ho
+      exact absurd ⟨ss, h1, h2⟩ hna
   exact ⟨hc, (hi.closedc hc).1, (hi.closedc hc).2, (hello_clean_of_unaligned hna).1⟩
+
+/-- R's session re-created behind S's back (Aligned but not InSession): R has applied nothing, holds no subscription of S, the
+    stream is down, and S's next successful handshake is a clean start although R answers clean_start=false. -/
+theorem stale_session_is_empty_and_resynced (cap : Nat) (st : St τ μ) (h : Reachable true cap st) (ss : Sess)
+    (hs : st.r.sess = some ss) (hid : ss.id = st.s.sid) (hlt : ss.next < st.s.ackFloor) :
+    st.r.applied = [] ∧ st.r.subs = [] ∧ st.c.isOpen = false ∧
+    cleanDecision true st.s (helloR cap st.r st.s.sid).2.1 (helloR cap st.r st.s.sid).2.2 = true := by
+  have stl := (h.inv.al ss hs hid).2 hlt
+  refine ⟨stl.app0, stl.subs0, stl.closed, ?_⟩
+  rcases helloR_cases cap st.r st.s.sid with ⟨ss', hss', _, hr⟩ | ⟨_, hr⟩
+  · have e := sess_unique hs hss'
+    subst e
+    rw [hr]; simp [cleanDecision]; omega
+  · rw [hr]; simp [cleanDecision]
 
 /-- At-least-once: while the session lasts, an emitted event that R has not applied yet is still in S's queue under its
     id (acknowledgements never remove it, breaks never lose it), so the next (re)connection sends it again. -/
-theorem no_event_lost_while_session_lasts (cap : Nat) (st : St τ μ) (h : SafeReachable cap st) (hal : Aligned st)
+theorem no_event_lost_while_session_lasts (cap : Nat) (st : St τ μ) (h : Reachable true cap st) (hal : InSession st)
     (i : Nat) (b : PBody τ μ) (hi1 : st.r.applied.length ≤ i) (hi2 : st.s.hist[i]? = some b) :
     ({ id := i, body := b } : Event (PBody τ μ)) ∈ st.s.q.items :=
   inv_unapplied_queued h.inv hal i b hi1 hi2
 
-/-- The duplicate filter only ever needs the most recent id: in every safely reachable state R has applied either exactly
+/-- The duplicate filter only ever needs the most recent id: while the session lasts R has applied either exactly
     `nextEventID` events or one more, and in the second case that id is still in the LRU — for EVERY LRU capacity `cap`
     (the model never evicts the id it has just inserted; the code hard-codes 100). Ids 100 or more behind are never re-sent. -/
-theorem lru_only_last_id_needed (cap : Nat) (st : St τ μ) (h : SafeReachable cap st) (ss : Sess)
-    (hs : st.r.sess = some ss) (hid : ss.id = st.s.sid) :
+theorem lru_only_last_id_needed (cap : Nat) (st : St τ μ) (h : Reachable true cap st) (ss : Sess)
+    (hs : st.r.sess = some ss) (hid : ss.id = st.s.sid) (hfl : st.s.ackFloor ≤ ss.next) :
     st.r.applied.length = ss.next ∨ (st.r.applied.length = ss.next + 1 ∧ ss.next ∈ ss.seen.items) :=
-  (h.inv.al ss hs hid).m
+  ((h.inv.al ss hs hid).1 hfl).m
 
 /-! ## 2. quiescence -/
 
-/-- FULL-STRENGTH statement, false with a lost handshake response (same schedule: it ends quiescent with
-    R's view = {2} and S's local set = {1, 2}). -/
-def QuiescentEqualStatement (τ μ : Type) [DecidableEq τ] : Prop :=
-  ∀ (cap : Nat) (st : St τ μ), Reachable cap st → Quiescent st →
+def QuiescentEqualStatement (fixed : Bool) (τ μ : Type) [DecidableEq τ] : Prop :=
+  ∀ (cap : Nat) (st : St τ μ), Reachable fixed cap st → Quiescent st →
     st.r.applied = st.s.hist ∧ ∀ t, t ∈ st.r.subs ↔ t ∈ st.s.topics
 
-/-- If the buffers are drained and no break is pending (stream open, nothing in flight, nothing left to send) then
-    k = number emitted — R has applied every event of the session exactly once, in order — and R's view of S's subscriptions
-    equals S's local topic set. -/
-theorem quiescent_equal_partial (cap : Nat) (st : St τ μ) (h : SafeReachable cap st) (hq : Quiescent st) :
-    Aligned st ∧ st.r.applied = st.s.hist ∧ ∀ t, t ∈ st.r.subs ↔ t ∈ st.s.topics :=
-  inv_quiescent h.inv hq
+/-- In every reachable state: if the buffers are drained and no break is pending (stream open, nothing in flight, nothing left
+    to send) then k = number emitted — R has applied every event of the session exactly once, in order — and R's view of S's
+    subscriptions equals S's local topic set. -/
+theorem quiescent_equal : QuiescentEqualStatement true τ μ := by
+  intro cap st h hq
+  exact (inv_quiescent h.inv hq).2
 
-theorem quiescent_equal_refuted : ¬ QuiescentEqualStatement Nat Nat := by
+/-- The code before 086aedd: the schedule above ends quiescent with R's view = {2} and S's local set = {1, 2}. -/
+theorem quiescent_equal_as_is_refuted : ¬ QuiescentEqualStatement false Nat Nat := by
   intro h
-  have hrun := lostHello_run
-  cases hr : run 100 lostHelloSchedule (init ([] : List Nat) ([] : List Nat)) with
+  have hrun := lostHello_run_as_is
+  cases hr : run false 100 lostHelloSchedule (init ([] : List Nat) ([] : List Nat)) with
   | none => rw [hr] at hrun; simp at hrun
   | some st =>
     rw [hr] at hrun
-    simp only [Option.map_some, Option.some.injEq, Prod.mk.injEq] at hrun
-    obtain ⟨h1, h2, _, _, _, _, h7, h8, h9⟩ := hrun
-    have hq : Quiescent st := by
-      refine ⟨h9, List.eq_nil_of_length_eq_zero h7, List.eq_nil_of_length_eq_zero h8, ?_⟩
-      -- the dangling flag is part of the state; compute it
-      have : (run 100 lostHelloSchedule (init ([] : List Nat) ([] : List Nat))).map (fun st => st.s.q.dangling) = some none := rfl
-      rw [hr] at this
-      simpa using this
+    simp only [Option.map_some, Option.some.injEq, summary, Prod.mk.injEq] at hrun
+    obtain ⟨h1, h2, _, _, _, _, h7, h8, h9, h10⟩ := hrun
+    have hq : Quiescent st :=
+      ⟨h9, List.eq_nil_of_length_eq_zero h7, List.eq_nil_of_length_eq_zero h8, h10⟩
     have := (h 100 st ⟨[], [], lostHelloSchedule, hr⟩ hq).1
     rw [h1, h2] at this
     simp at this
 
-/-- Liveness half of "after the stream has been stable": from every safely reachable state, a connection on which
-    nothing breaks any more (`reconnect true` if needed, then only `fetchSend`, `deliver true`, `deliverAck`) reaches a
-    quiescent state in finitely many steps, without S's local set changing on the way. -/
-theorem stable_stream_reaches_quiescence (cap : Nat) (st : St τ μ) (h : SafeReachable cap st) :
-    ∃ (ls : List (Label τ μ)) (st' : St τ μ), (∀ l ∈ ls, l.isStable = true) ∧ run cap ls st = some st' ∧ Quiescent st' ∧
-      st'.s.topics = st.s.topics := by
-  obtain ⟨ls, st', h1, h2, h3, _, h5, _⟩ := inv_reaches_quiescence (cap := cap) h.inv
-  exact ⟨ls, st', h1, h2, h3, h5⟩
+/-- …and with the fix the same schedule (plus the delivery of the second event) ends with everything applied. -/
+theorem lost_hello_schedule_fixed :
+    (run true 100 (lostHelloSchedule ++ [.deliver true]) (init ([] : List Nat) ([] : List Nat))).map summary =
+      some ([.sub 1, .sub 2], [.sub 1, .sub 2], [1, 2], [1, 2], some 0, 0, 0, 0, true, none) :=
+  lostHello_run_fixed
+
+/-- Liveness half of "after the stream has been stable": from every reachable state, a connection on which nothing breaks any
+    more (`reconnect true` if needed, then only `fetchSend`, `deliver true`, `deliverAck`) reaches a quiescent state in
+    finitely many steps, without S's local set changing on the way. -/
+theorem stable_stream_reaches_quiescence (cap : Nat) (st : St τ μ) (h : Reachable true cap st) :
+    ∃ (ls : List (Label τ μ)) (st' : St τ μ), (∀ l ∈ ls, l.isStable = true) ∧ run true cap ls st = some st' ∧ Quiescent st' ∧
+      st'.r.applied = st'.s.hist ∧ (∀ t, t ∈ st'.r.subs ↔ t ∈ st.s.topics) := by
+  obtain ⟨ls, st', h1, h2, h3, h4, h5, _⟩ := inv_reaches_quiescence (cap := cap) h.inv
+  have hq := inv_quiescent h4 h3
+  exact ⟨ls, st', h1, h2, h3, hq.2.1, fun t => by rw [← h5]; exact hq.2.2 t⟩
 
 /-! ## 3. resynchronisation after session loss -/
 
 /-- When the peer has lost the session (`peerRestart`: R restarted or declared S failed) or S has (`senderRestart`:
-    S restarted or re-created the peer after fail+join, possibly with a different local set `ts`), the sessions are no longer
-    aligned, the next handshake is a clean start, and a stable stream from there ends in a state where R has applied exactly
-    the resynchronisation + later events, once each in order, and R's view equals S's local set. -/
-theorem resync_restores_partial (cap : Nat) (st st1 : St τ μ) (h : SafeReachable cap st) (l : Label τ μ)
-    (hl : l = .peerRestart ∨ ∃ ts ms, l = .senderRestart ts ms) (hs : step cap st l = some st1) :
+    S restarted or re-created the peer after fail+join, possibly with a different local set `ts`) — from ANY reachable state,
+    whatever handshakes were lost before — the sessions are no longer aligned, the next handshake is a clean start, and a stable
+    stream from there ends in a state where R has applied exactly the resynchronisation + later events, once each in order,
+    and R's view equals S's local set. -/
+theorem resync_restores (cap : Nat) (st st1 : St τ μ) (h : Reachable true cap st) (l : Label τ μ)
+    (hl : l = .peerRestart ∨ ∃ ts ms, l = .senderRestart ts ms) (hs : step true cap st l = some st1) :
     ¬ Aligned st1 ∧ (helloR cap st1.r st1.s.sid).2.1 = true ∧
-    ∃ (ls : List (Label τ μ)) (st2 : St τ μ), (∀ l ∈ ls, l.isStable = true) ∧ run cap ls st1 = some st2 ∧ Quiescent st2 ∧
-      Aligned st2 ∧ st2.r.applied = st2.s.hist ∧ (∀ t, t ∈ st2.r.subs ↔ t ∈ st1.s.topics) := by
+    ∃ (ls : List (Label τ μ)) (st2 : St τ μ), (∀ l ∈ ls, l.isStable = true) ∧ run true cap ls st1 = some st2 ∧ Quiescent st2 ∧
+      InSession st2 ∧ st2.r.applied = st2.s.hist ∧ (∀ t, t ∈ st2.r.subs ↔ t ∈ st1.s.topics) := by
   have hi := h.inv
   have hna := (unaligned_after_restart hi l hl hs).1
-  have hl' : l.isHelloLost = false := by
-    rcases hl with h | ⟨_, _, h⟩ <;> subst h <;> rfl
-  have hi1 := step_inv l hl' hi hs
+  have hi1 := step_inv l hi hs
   obtain ⟨ls, st2, h1, h2, h3, h4, h5, _⟩ := inv_reaches_quiescence (cap := cap) hi1
   have hq := inv_quiescent h4 h3
   exact ⟨hna, (hello_clean_of_unaligned hna).1, ls, st2, h1, h2, h3, hq.1, hq.2.1, fun t => by rw [← h5]; exact hq.2.2 t⟩
@@ -282,9 +299,15 @@ theorem hook_event_reaches_every_peer (qs : List (String × EQ Body)) (b : Body)
 
 /-- a run with a break between application and ack, a re-send that is recognised as duplicate, ending quiescent -/
 example :
-    (run 100 ([.reconnect true, .fetchSend, .deliver false, .reconnect true, .emit (.unsub 7), .fetchSend, .deliver true,
+    (run true 100 ([.reconnect true, .fetchSend, .deliver false, .reconnect true, .emit (.unsub 7), .fetchSend, .deliver true,
                .deliver true, .deliver true, .deliverAck] : List (Label Nat Nat)) (init [7, 8] [])).map
       (fun st => (st.r.applied, st.r.subs, st.s.topics, st.r.sess.map (·.next), st.s.q.items.map (·.id), st.c.up.length)) =
     some ([.sub 7, .sub 8, .unsub 7], [8], [8], some 3, [1, 2], 0) := rfl
+
+/-- first contact with the answer lost twice: the session id is rotated each time, the third Hello is a clean start -/
+example :
+    (run true 100 ([.helloLost, .helloLost, .reconnect true, .fetchSend, .deliver true] : List (Label Nat Nat)) (init [7] [])).map
+      (fun st => (st.r.applied, st.s.sid, st.r.sess.map (·.id), st.s.synced)) =
+    some ([.sub 7], 2, some 2, true) := rfl
 
 end GmqttVerif.Fed
